@@ -112,8 +112,16 @@ def l1d_case(arg):
         pend = [p for p in pend if p not in src.data]
     res = {"seed": seed, "factor": factor, "loss": lossn, "n": len(data), "fail": None, "orders": 0, "pending": len(pend)}
 
+    resumed = rng.random() < 0.3   # a learner resumed after a cancelled run: pending marks, then remove_unfinished
+
     def build(order, mode):
         l = mk(lossn, bounds, f, factor)
+        if resumed and len(order) >= 2:
+            for x, y in order[:2]:
+                l.tell(x, y)
+            for p in pend or [lo + (hi - lo) * 0.37]:
+                l.tell_pending(p)
+            l.remove_unfinished()
         if pend and mode == "pend_first":
             for p in pend:
                 l.tell_pending(p)
@@ -129,6 +137,7 @@ def l1d_case(arg):
                 l.tell_pending(p)
         return l
 
+    res["resumed"] = resumed
     ref = build(data, "single")
     perms = list(itertools.permutations(data)) if len(data) <= 5 else [rng.sample(data, len(data)) for _ in range(6)]
     for perm in perms:
